@@ -37,7 +37,7 @@ FUNCTIONS_ENCODED = [
     "pyanalyze.value.is_overlapping / can_overlap",
 ]
 BOUNDS = {
-    "quick": {"values": "the 20 shapes of C14 and the ~110 depth-1 type expressions of vf/member.py; a rotating tenth of the ordered pairs", "payloads": "ints in [0, 1] (KnownValue.substitute_typevars realises its payload)"},
+    "quick": {"values": "unions of 11-12 literals, unhashable list / dict / set literals, the 20 shapes of C14 and the ~110 depth-1 type expressions of vf/member.py; a rotating tenth of the ordered pairs", "payloads": "ints in [0, 1] (KnownValue.substitute_typevars realises its payload)"},
     "thorough": {"values": "same; a third of the ordered pairs", "payloads": "same"},
 }
 OUTSIDE = ["THE FIRST HALF OF THE PROPERTY: checking any syntactically valid module terminates without raising and without internal_error, with well-formed diagnostics - needs the visitor",
@@ -62,6 +62,19 @@ def prepare(template, data):
 def _build(spec, p, q, f):
     if spec[0] == "c14":
         return c14.mk(spec[1], p)
+    if spec[0] == "c12":
+        k = spec[1]
+        if k == "big10":  # a union large enough for the literal fast path of MultiValuedValue.can_assign (>= 10 members)
+            return MultiValuedValue([KnownValue(p)] + [KnownValue(i) for i in range(2, 12)])
+        if k == "big10s":
+            return MultiValuedValue([KnownValue(p), TypedValue(str)] + [KnownValue(i) for i in range(2, 12)])
+        if k == "ulist":  # unhashable literals
+            return KnownValue([p])
+        if k == "udict":
+            return KnownValue({"a": p})
+        if k == "uset":
+            return KnownValue({0})
+        raise AssertionError(k)
     t = M.instantiate(spec[1], (p, q), (f, not f))
     return M.to_value(t)
 
@@ -96,12 +109,16 @@ def cases(tier: str, seed: int) -> List[Case]:
     quick = tier == "quick"
     vals = [("c14", s) for s in c14.SHAPES if s != "ulit"]
     vals += [("m", t) for t in M.depth1(M.LEAVES, M.P0, M.F0)]
+    own = [("c12", k) for k in ("big10", "big10s", "ulist", "udict", "uset")]
+    vals += own
     out: List[Case] = []
     for a, b in itertools.product(vals, repeat=2):
-        la = ("s:" + a[1]) if a[0] == "c14" else ("t:" + M.tname(a[1]))
-        lb = ("s:" + b[1]) if b[0] == "c14" else ("t:" + M.tname(b[1]))
+        la = ("s:" + a[1]) if a[0] in ("c14", "c12") else ("t:" + M.tname(a[1]))
+        lb = ("s:" + b[1]) if b[0] in ("c14", "c12") else ("t:" + M.tname(b[1]))
         lab = f"{la}~{lb}"
-        if (zlib.crc32(lab.encode()) + seed) % (12 if quick else 2) != 0:
+        # large unions and unhashable literals against each other and against the small shapes: always
+        pinned = (a in own and (b in own or b[0] == "c14")) or (b in own and a[0] == "c14")
+        if not pinned and (zlib.crc32(lab.encode()) + seed) % (12 if quick else 2) != 0:
             continue
         out.append(Case("h12", lab, {"a": list(a), "b": list(b)}, timeout=60 if quick else 180,
                         twin=(zlib.crc32(lab.encode()) % 20 == 0)))
